@@ -7,8 +7,8 @@ from .kd_random_crop import KDRandomCrop
 class KDTwoRandomCrop(KDRandomCrop):
     def __init__(self, *args, overlap_min=None, overlap_max=None, tries=20, **kwargs):
         super().__init__(*args, **kwargs)
-        overlap_min = overlap_min or 0.
-        overlap_max = overlap_max or 1.
+        overlap_min = 0. if overlap_min is None else overlap_min
+        overlap_max = 1. if overlap_max is None else overlap_max
         assert 0. <= overlap_min <= 1., overlap_min
         assert 0. <= overlap_max <= 1., overlap_max
         self.overlap_min = overlap_min
